@@ -139,3 +139,36 @@ def prepare_overlay(tag, want, with_svob=True):
     ov.write("toktrie/src/verif_tables.rs", vocab.gen_tables_rs(fams, dumped))
     ov.write("toktrie/src/verif_instances.rs", "// GENERATED harness instances\n" + "\n".join(inst.src))
     return ov, fams, dumped, inst
+
+
+class ChopSliceError(Exception):
+    pass
+
+
+def slice_chop():
+    """statements of TokTrie::chop_tokens between `let chop_bytes = suff.len();` and `unreachable!();` (inclusive)"""
+    from .common import REPO
+    src = open(os.path.join(REPO, "toktrie/src/toktree.rs")).read().splitlines()
+    st = [i for i, l in enumerate(src) if l.strip() == "let chop_bytes = suff.len();"]
+    if len(st) != 1:
+        raise ChopSliceError("anchor `let chop_bytes = suff.len();` not found exactly once in toktree.rs")
+    out = []
+    for i in range(st[0], min(len(src), st[0] + 25)):
+        out.append(src[i])
+        if src[i].strip() == "unreachable!();":
+            return "{\n" + "\n".join(out) + "\n}\n"
+    raise ChopSliceError("end anchor `unreachable!();` not found after the start anchor in toktree.rs")
+
+
+CHOP_SPECS = [dict(name="chop_h::k13_1_chop_account_n1", expect="pass", family="K13.1"), dict(name="chop_h::k13_1_chop_account_n2", expect="pass", family="K13.1"),
+              dict(name="chop_h::k13_1_chop_account_n4", expect="pass", family="K13.1"), dict(name="chop_h::k13_1_chop_witness_must_fail", expect="fail", family="K13.1")]
+
+
+def inject_chop(ov):
+    """adds the chop accounting harness as a top-level module of the toktrie overlay (it needs no private items)"""
+    from . import e1
+    body = e1.expand_inst(open(os.path.join(VERIF, "kani/toktrie/chop_h.rs")).read())
+    ov.write("toktrie/src/chop_h.rs", body)
+    ov.write("toktrie/src/verif_chop_slice.rs", slice_chop())
+    with open(ov.path("toktrie/src/lib.rs"), "a") as f:
+        f.write("\n#[cfg(kani)]\nmod chop_h;\n")
